@@ -278,6 +278,8 @@ package nsqadmin
 //@ func (n *NSQAdmin) Main() error
 //@   props C17 C18
 //@   requires n != nil
+//   (round 7) Main runs on a daemon built by New (New/[daemon]: the listener is open): Main$2's precondition is checked where it is started
+//@   requires[built-by-New] n.httpListener != nil
 //@   requires[graphite-url-parsed] curOpts.ProxyGraphite ==> n.graphiteURL != nil
 //@   ensures[two-goroutines] r5HWraps == old(r5HWraps) + 2
 //@   ensures[serve-loop-and-pump-started] setin(r5HWrapped, "(*github.com/nsqio/nsq/nsqadmin.NSQAdmin).Main$2") && setin(r5HWrapped, "(*github.com/nsqio/nsq/nsqadmin.NSQAdmin).handleAdminActions")
